@@ -1,6 +1,7 @@
 package query
 
 import (
+	"context"
 	"strings"
 
 	"github.com/mithrandie/csvq/lib/option"
@@ -92,6 +93,7 @@ func NewPreparedStatement(flags *option.Flags, expr parser.StatementPreparation)
 type ReplaceValues struct {
 	Values []parser.QueryExpression
 	Names  map[string]int
+	Outer  context.Context
 }
 
 func NewReplaceValues(replace []parser.ReplaceValue) *ReplaceValues {
